@@ -72,7 +72,7 @@ func showParam(p tlparser.Parameter) string {
 	return fmt.Sprintf("%s:%s:%s:%s:%d", vc.HexS(p.Name), vc.HexS(p.Type), b(p.IsVector), b(p.IsOptional), p.BitToTrigger)
 }
 
-func showDef(o *vc.Out, id, k, name string, crc uint32, params []tlparser.Parameter, typ string, isvec bool) {
+func showDef(o *vc.Out, tag, id, k, name string, crc uint32, params []tlparser.Parameter, typ string, isvec bool) {
 	ps := "-"
 	if len(params) > 0 {
 		l := make([]string, len(params))
@@ -85,7 +85,7 @@ func showDef(o *vc.Out, id, k, name string, crc uint32, params []tlparser.Parame
 	if isvec {
 		v = "1"
 	}
-	o.Line("D", id, k, vc.HexS(name), fmt.Sprint(crc), vc.HexS(typ), v, ps)
+	o.Line(tag, id, k, vc.HexS(name), fmt.Sprint(crc), vc.HexS(typ), v, ps)
 }
 
 func namesOf(l []tlparser.Object) string {
@@ -142,6 +142,31 @@ func goifyEntries(cases *vc.Out, s *tlparser.Schema) {
 	}
 }
 
+// declDef: one definition as the random generator wrote it
+type declDef struct {
+	kind, name string
+	id         uint32
+	params     []tlparser.Parameter
+	typ        string
+	isvec      bool
+}
+
+func (d *rdef) declared(kind string) declDef {
+	w := declDef{kind: kind, name: d.name, id: d.id, typ: d.result}
+	if strings.HasPrefix(d.result, "Vector<") {
+		w.typ = strings.TrimSuffix(strings.TrimPrefix(d.result, "Vector<"), ">")
+		w.isvec = true
+	}
+	for _, p := range d.params {
+		q := tlparser.Parameter{Name: p.name, Type: p.typ, IsVector: p.vec, IsOptional: p.opt, BitToTrigger: p.bit}
+		if p.flags {
+			q.Type = "bitflags"
+		}
+		w.params = append(w.params, q)
+	}
+	return w
+}
+
 type runner struct {
 	cases, impl *vc.Out
 	n           int
@@ -149,9 +174,13 @@ type runner struct {
 }
 
 // one schema text: model input + implementation projection
-func (r *runner) schema(kind, label, text string, compile bool) string {
+func (r *runner) schema(kind, label, text string, compile bool, declared ...declDef) string {
 	r.n++
 	id := fmt.Sprintf("s%d", r.n)
+	for _, w := range declared {
+		// what the schema text declares, by construction of the generator (direct oracle)
+		showDef(r.impl, "W", id, w.kind, w.name, w.id, w.params, w.typ, w.isvec)
+	}
 	res := runParse(text)
 	r.cases.Line("GC")
 	if res.class == "ok" {
@@ -172,10 +201,10 @@ func (r *runner) schema(kind, label, text string, compile bool) string {
 	s := res.schema
 	r.impl.Line("P", id, "ok", fmt.Sprint(len(s.Objects)), fmt.Sprint(len(s.Methods)))
 	for _, o := range s.Objects {
-		showDef(r.impl, id, "o", o.Name, o.CRC, o.Parameters, o.Interface, false)
+		showDef(r.impl, "D", id, "o", o.Name, o.CRC, o.Parameters, o.Interface, false)
 	}
 	for _, m := range s.Methods {
-		showDef(r.impl, id, "m", m.Name, m.CRC, m.Parameters, m.Response.Type, m.Response.IsList)
+		showDef(r.impl, "D", id, "m", m.Name, m.CRC, m.Parameters, m.Response.Type, m.Response.IsList)
 	}
 	var cl *gen.VerifClass
 	panicked, _ := vc.Catch(func() { cl, _ = gen.VerifClassify(s) })
@@ -554,7 +583,7 @@ var excludedLines = []string{"int ? = Int;", "long ? = Long;", "double ? = Doubl
 	"invokeAfterMsg#cb9f372d {X:Type} msg_id:long query:!X = X;", "invokeWithLayer#da9b0d0d {X:Type} layer:int query:!X = X;"}
 
 // schemaText builds one schema of the subset
-func (g *sgen) schemaText(size int) string {
+func (g *sgen) schemaText(size int) (string, []declDef) {
 	r := g.rng
 	g.goNames = map[string]bool{"Client": true}
 	nt := 1 + r.Intn(size)
@@ -631,6 +660,7 @@ func (g *sgen) schemaText(size int) string {
 		}
 	}
 	var b strings.Builder
+	var decl, declM []declDef
 	sep := func() {
 		switch r.Intn(6) {
 		case 0:
@@ -659,6 +689,7 @@ func (g *sgen) schemaText(size int) string {
 			}
 			g.commentBlock(&b, it.kind, &it.d)
 			b.WriteString(it.d.line() + "\n")
+			decl = append(decl, it.d.declared("o"))
 		}
 	}
 	writeObjs(objs[:half])
@@ -669,6 +700,7 @@ func (g *sgen) schemaText(size int) string {
 		sep()
 		g.commentBlock(&b, "method", &methods[i])
 		b.WriteString(methods[i].line() + "\n")
+		declM = append(declM, methods[i].declared("m"))
 	}
 	if half < len(objs) {
 		b.WriteString("---types---\n")
@@ -679,9 +711,9 @@ func (g *sgen) schemaText(size int) string {
 		b.WriteString("// trailing comment without newline")
 	case 1:
 		s := b.String()
-		return strings.TrimRight(s, "\n") // no final newline
+		return strings.TrimRight(s, "\n"), append(decl, declM...) // no final newline
 	}
-	return b.String()
+	return b.String(), append(decl, declM...)
 }
 
 // ---------------------------------------------------------------------------------------------
@@ -792,6 +824,16 @@ func main() {
 		res := runParse(string(b))
 		fmt.Fprintf(w, "P\t%s\t%s\n", res.class, res.detail)
 		w.Flush()
+		if res.class == "ok" {
+			o := vc.Create("/dev/stdout")
+			for _, x := range res.schema.Objects {
+				showDef(o, "D", "one", "o", x.Name, x.CRC, x.Parameters, x.Interface, false)
+			}
+			for _, m := range res.schema.Methods {
+				showDef(o, "D", "one", "m", m.Name, m.CRC, m.Parameters, m.Response.Type, m.Response.IsList)
+			}
+			o.Close()
+		}
 	case "gen":
 		tier, outdir, repo := os.Args[2], os.Args[3], os.Args[4]
 		r := &runner{cases: vc.Create(filepath.Join(outdir, "cases.txt")), impl: vc.Create(filepath.Join(outdir, "impl.txt")), stat: map[string]int{}}
@@ -820,7 +862,7 @@ func main() {
 		}
 		nCompiled, nValid, nMalformed, nCursor, tinyLen := 10, 300, 500, 600, 2
 		if tier == "thorough" {
-			nCompiled, nValid, nMalformed, nCursor, tinyLen = 150, 3000, 6000, 8000, 3
+			nCompiled, nValid, nMalformed, nCursor, tinyLen = 300, 4000, 8000, 10000, 3
 		}
 		g := &sgen{rng: rng.Fork(1), ids: map[uint32]bool{}}
 		var valid []string
@@ -829,9 +871,9 @@ func main() {
 			if i < nCompiled {
 				size = 3 + g.rng.Intn(8)
 			}
-			t := g.schemaText(size)
+			t, decl := g.schemaText(size)
 			valid = append(valid, t)
-			r.schema("valid", "", t, i < nCompiled)
+			r.schema("valid", "", t, i < nCompiled, decl...)
 		}
 		for _, t := range tails {
 			r.schema("edge", "", t, false)
